@@ -91,3 +91,19 @@ Proof.
   - intros H. injection H as <-. exact I.
   - intros H. injection H as <-. now rewrite (L _ _ _ E).
 Qed.
+
+(* ---- impl std::fmt::Display for Error ------------------------------------------------
+   The translated `fmt` appends the message to whatever the formatter already holds and answers Ok(()); it never
+   panics.  The pieces of the format string are appended one by one (left-nested appends), the hand model is one
+   right-nested concatenation: associativity, then the literal pieces are convertible. *)
+Theorem g_git_error_fmt_eq : forall (e : git_error) (f : list N),
+  g_git_error_fmt e f = Some (f ++ git_error_message e, Ok tt).
+Proof.
+  intros [style word | style word] f; unfold g_git_error_fmt, git_error_message, git_fmt_write; cbv zeta;
+    rewrite <- !app_assoc; reflexivity.
+Qed.
+
+(* `e.to_string()`: Display into an empty String *)
+Theorem g_git_error_to_string : forall e : git_error,
+  option_map fst (g_git_error_fmt e []) = Some (git_error_to_string e).
+Proof. intros e. rewrite g_git_error_fmt_eq. reflexivity. Qed.
